@@ -156,7 +156,7 @@ var fmtPools = map[string][]string{
 	"json":       {"{'a':1}", "{\"a\":\"\x00\n\r\t\x1a\\\"}", "[" + strings.Repeat("1,", 200) + "1", "[" + strings.Repeat("1,", 200) + "1]", `{"a":1}`, `[1,2]`, `[1,2`, `null`, `"x"`, `{a:1}`, `1`, ``, ` {} `, `{"a":"é"}`},
 	"prefix":     {"abc", "abd", "ab", "xabc", "abcabc", "中文", "中"},
 	"path":       {"/tmp", "/etc/hostname", "/nonexistent/x", "/etc", ".", "", "/dev/null", "/etc/hostname/", "/etc/hostname/.", "/nonexistent/../etc/hostname", "/etc/hostname/../hostname", "/nonexistent/..", "/etc/hostname/../../tmp", "/etc//", "/etc/.", "/etc/../etc/hostname"},
-	"re":         {"123", "abc", "a1", "it's", "a,b", "", "12345"},
+	"re":         {"123", "abc", "a1", "it's", "a,b", "", "12345", "a\\'b", "a'b", "a\\b", "a\\\\'b"},
 }
 
 var mutateRunes = []string{"0", "9", "a", "X", "x", "中", " ", "-", "/", ":", ".", ",", "'", "@", "+", "_", "\x00", "\n", "１", "|", "="}
@@ -315,7 +315,7 @@ func randRuleItem(r *rand.Rand, k reflect.Kind, v reflect.Value, o ruleOpts) str
 			return withMsg(r, "datetime='"+strings.Join(seps, ",")+"'", o)
 		}
 	case 8:
-		p := pick(r, []string{`\d+`, `^\d+$`, `^[a-z]+$`, `it\'s`, `a,b`, `^.{2,4}$`, `[`, `a|b`, `中`, ``})
+		p := pick(r, []string{`\d+`, `^\d+$`, `^[a-z]+$`, `it\'s`, `a,b`, `^.{2,4}$`, `[`, `a|b`, `中`, ``, `^a\\\'b$`, `^a\\'b$`, `a\\b`, `\Qa\'b\E`, `[^\']+`})
 		return withMsg(r, "re='"+p+"'", o)
 	default:
 		switch r.IntN(4) {
@@ -343,6 +343,9 @@ func randRuleList(r *rand.Rand, k reflect.Kind, v reflect.Value, maxRules int, o
 	for i := 0; i < n; i++ {
 		if chance(r, o.pEmptyItem) {
 			items = append(items, "")
+			if chance(r, 0.3) {
+				items = append(items, "", "")[:len(items)+1+r.IntN(2)] // two or three empty items in a row
+			}
 		}
 		items = append(items, randRuleItem(r, k, v, o))
 		if chance(r, 0.05) && len(items) > 0 { // repeated rule
@@ -523,8 +526,18 @@ func (g *wgen) structType(depth int) reflect.Type {
 	if chance(g.r, 0.03) {
 		n = 0
 	}
+	wideFrom := -1
+	if depth >= 1 && chance(g.r, 0.012) {
+		// a very wide struct: 60 … 75 plain fields in front, then the ordinary ones (field indices beyond 64)
+		wideFrom = 60 + g.r.IntN(16)
+	}
 	used := map[string]bool{}
 	var fs []reflect.StructField
+	for i := 0; i < wideFrom; i++ {
+		name := fmt.Sprintf("W%d", i)
+		used[name] = true
+		fs = append(fs, reflect.StructField{Name: name, Type: reflect.TypeOf(int8(0))})
+	}
 	for i := 0; i < n; i++ {
 		name := pick(g.r, fieldNames)
 		if used[name] {
